@@ -1466,11 +1466,11 @@ FormatterToXML::writeNormalizedChars(
                     {
                         throwInvalidUTF16SurrogateException(c, next, getMemoryManager());
                     }
-
-                    next = XalanDOMChar(((c - 0xd800) << 10) + next - 0xdc00 + 0x00010000);
                 }
 
-                writeNumberedEntityReference(next);
+                // The code point does not fit into a XalanDOMChar.
+                writeNumberedEntityReference(
+                    ((XalanUnicodeChar(c) - 0xd800u) << 10) + next - 0xdc00u + 0x00010000u);
             }
             else
             {
